@@ -78,7 +78,10 @@ def main():
     out.append('Each change was written by a fresh sub-agent that saw only the property text and a scratch worktree, '
                'then confirmed by `tools/seedtest.py` in scratch copies of `/repo` HEAD: it applies, compiles, the 60 tests '
                'still pass, its own demonstration fails with it and passes without it.  `check` = outcome of the registered '
-               'quick check run against the patched copy (`NEATVI_REPO`).\n')
+               'quick check run against the patched copy (`NEATVI_REPO`).  A `patch.diff` applies to the `/repo` commit named in its '
+               '`meta.json` (`repo_head`: the HEAD it was confirmed against); later `fix:` commits moved the context of a few of them '
+               '(C01d, C02e, C04b, C05d, C14d, C15f do not apply to the final HEAD unchanged; C03i was rebased, the original is kept as '
+               '`patch-on-268c549.diff`).\n')
     out.append('| seed | property | needs to manifest (from its README) | tests pass | demo fails | check outcome | first report |')
     out.append('|---|---|---|---|---|---|---|')
     for d in sorted(glob.glob(os.path.join(V, 'seeded', '*'))):
